@@ -21,17 +21,22 @@ def prop(pid):
 # ---- shape windows (DESIGN.md section 6) ------------------------------------------------
 def aead_window(tier):
     q = [(a, m) for a in range(10) for m in range(10)]
+    # shapes beyond the KAT limit of 32 bytes in the quick tier as well (block-wise fast paths, 64-byte strides)
+    q += [(a, m) for a in (0, 3) for m in (33, 64, 65, 67, 130, 259)] + [(33, 2), (64, 0), (67, 5), (130, 1)]
     if tier == "quick":
         return q
     t = set((a, m) for a in range(18) for m in range(18))
     big = (31, 32, 33, 47, 63, 64, 65)
     t |= set((a, m) for a in big for m in big)
-    t |= set((a, m) for a in (0, 3, 16) for m in (127, 128, 129, 130, 131, 255, 256, 257, 258, 259, 1023, 1024))
+    t |= set((a, m) for a in (0, 3, 16) for m in (127, 128, 129, 130, 131, 255, 256, 257, 258, 259, 1023, 1024, 1025, 1027, 1028, 1031))
+    t |= set((a, m) for a in (255, 256, 257, 1024, 1031) for m in (0, 2, 5))
+    t |= set(q)
+    t |= set([(0, 1031), (1031, 2)])
     return sorted(t)
 
 
 def unwind_for(*lens):
-    return max(lens) + 12
+    return max(lens) + 16
 
 
 def aead_cbmc(ks, mode="aead"):
@@ -52,13 +57,31 @@ AEAD_ASSUME = ["cbmc 6.11.0 front end / symex / flattening and z3 4.8.12 are tru
                "gcc's optimiser and machine code are outside the claim"]
 
 
+def align_variants(jobs, pred, offsets=(1, 2, 3)):
+    """Re-issue selected queries with every caller buffer placed at byte offset k of its heap object (-DVERIF_ALIGN=k):
+    CBMC puts object bases on word boundaries, so k is the pointer value modulo 4 and alignment-dependent paths
+    ((uintptr_t)p & 3 fast paths, word-wide accesses guarded by an alignment test) are executed on that side."""
+    import copy
+    out = []
+    for j in jobs:
+        if j.kind == "cbmc" and pred(j):
+            for k in offsets:
+                j2 = copy.copy(j)
+                j2.defines = dict(j.defines, VERIF_ALIGN=k)
+                j2.shape = dict(j.shape, VERIF_ALIGN=k)
+                j2.name = "%s-align%d" % (j.name, k)
+                j2.facet = "alignment k=%d: %s" % (k, j.facet)
+                out.append(j2)
+    return out
+
+
 # ---- C01 -------------------------------------------------------------------------------
 @prop("C01")
 def c01(tier):
     jobs = []
     for ks in KSS:
         for (a, m) in aead_window(tier):
-            thin = (a in (0, 5)) if tier == "quick" else (a <= 17 and m <= 17 and a % 3 == 0) or m > 100
+            thin = (a in (0, 5) and m < 100) if tier == "quick" else (a <= 17 and m <= 17 and a % 3 == 0) or m > 100
             for alias in (0, 1, 2, 3):
                 if alias and not thin:
                     continue
@@ -66,6 +89,8 @@ def c01(tier):
                                 {"KS": ks, "MODE": "aead", "ADLEN": a, "MLEN": m, "ALIAS": alias},
                                 aead_cbmc(ks), aead_native(ks), unwind=unwind_for(a, m, 32),
                                 timeout=300 if tier == "quick" else 900, facet="roundtrip-alias%d" % alias))
+    jobs += align_variants(jobs, lambda j: j.defines["ALIAS"] in (0, 3) and (j.defines["ADLEN"], j.defines["MLEN"]) in
+                           ((0, 0), (5, 9), (4, 8), (3, 67), (0, 33), (7, 3)))
     meta = {
         "functions": ["tinyjambu_%d_aead_encrypt" % k for k in KSS] + ["tinyjambu_%d_aead_decrypt" % k for k in KSS] +
                      ["tinyjambu_setup_N", "tinyjambu_absorb_N", "tinyjambu_generate_tag_N", "tinyjambu_aead_check_tag"],
@@ -75,8 +100,8 @@ def c01(tier):
                   "{0,3,16} x {127..131,255..259,1023,1024}; all three key sizes; aliasing variants: separate, "
                   "encrypt in place, decrypt in place, both; every key/nonce/ad/plaintext byte symbolic; loops "
                   "fully unrolled with --unwinding-assertions",
-        "outside": "lengths outside the window; gcc code generation; alignment (CBMC's memory model has none; "
-                   "see C06 alignment facet)",
+        "outside": "lengths outside the window; gcc code generation; alignment beyond the -DVERIF_ALIGN=1..3 variants of a cross-section of "
+                   "shapes (every caller buffer at address k mod 4; CBMC object bases are word aligned, so pointer-value tests see k)",
         "stubs": AEAD_STUBS, "assumptions": AEAD_ASSUME, "relies_on": ["C05 (permutation is a function of state, key, rounds)"],
     }
     return jobs, meta
@@ -102,9 +127,13 @@ SPEC_NOTE = ("oracle: models/tj_spec.c, written from the TinyJAMBU v2 specificat
              "and validated on every setup run against the repository's six AEAD/SIV KAT files with the bit-serial NLFSR")
 
 
+ALIGN_SHAPES = ((0, 0), (5, 9), (4, 8), (3, 67), (0, 33), (7, 3), (33, 2))
+
+
 @prop("C02")
 def c02(tier):
     jobs = conf_jobs(tier, "aead")
+    jobs += align_variants(jobs, lambda j: (j.defines["ADLEN"], j.defines["MLEN"]) in ALIGN_SHAPES)
     meta = {
         "functions": ["tinyjambu_%d_aead_encrypt" % k for k in KSS] + ["tinyjambu_setup_N", "tinyjambu_absorb_N",
                                                                        "tinyjambu_generate_tag_N"],
@@ -160,9 +189,12 @@ def short_jobs(mode):
 
 
 def checktag_jobs(tier):
-    ps = list(range(0, 41)) if tier == "quick" else list(range(0, 41)) + [64, 255, 256, 1000]
+    # lengths around every plausible counter / vector width (8-bit byte and word counters, 16-bit counters)
+    ps = list(range(0, 41)) + [255, 256, 257, 1023, 1024, 1025]
+    if tier != "quick":
+        ps += [64, 1000, 1027, 4099, 65535, 65536, 65537, 262147]
     return [Job("checktag-p%d" % p, "c03_checktag.c", {"PLEN": p}, LIBC + S("backend/tinyjambu-util.c"),
-                S("backend/tinyjambu-util.c"), backend="sat", unwind=p + 12, timeout=600,
+                S("backend/tinyjambu-util.c"), backend="sat", unwind=p + 12, timeout=600 if p < 5000 else 3000,
                 facet="check_tag-real-code") for p in ps]
 
 
@@ -174,7 +206,7 @@ def c03(tier):
                      ["tinyjambu_%d_aead_decrypt" % k for k in KSS],
         "units": ["src/backend/tinyjambu-util.c", "src/tinyjambu-{128,192,256}-aead.c",
                   "src/backend/tinyjambu-aead-common-{128,192,256}.c"],
-        "bounds": "check_tag: plaintext_len 0..40 (thorough + 64,255,256,1000), all tag pairs, all plaintext bytes; "
+        "bounds": "check_tag: plaintext_len 0..40, 255..257, 1023..1025 (thorough + 4099, 65535..65537, 262147), all tag pairs, all plaintext bytes; "
                   "decrypt: arbitrary (key, nonce, ad, body, tag) with tag = spec tag XOR arbitrary delta, shapes "
                   "ad in {0,1,5,8} x body 0..9 + (3,17),(0,33) (thorough: wider, up to 258), in place and separate; "
                   "call-contract variant with a recording check_tag; clen 0..7 exhaustively",
@@ -197,7 +229,7 @@ def c04(tier):
                   "src/backend/tinyjambu-aead-common-{128,192,256}.c"],
         "bounds": "as C03; rejection => every byte of the clen-8 region is zero, acceptance => the specification's "
                   "plaintext; arbitrary prior buffer contents; in place and separate; 6 cipher variants; check_tag alone "
-                  "with plaintext_len up to 40 (thorough: 1000) shows every byte is ANDed with the verdict mask",
+                  "with plaintext_len 0..40, 255..257, 1023..1025 (thorough up to 262147) shows every byte is ANDed with the verdict mask",
         "outside": "message lengths outside the window for the end-to-end queries (the clearing loop itself is decided "
                    "for lengths up to 1000 on check_tag alone, and the call contract shows it receives the full region)",
         "stubs": AEAD_STUBS + [SPEC_NOTE], "assumptions": AEAD_ASSUME, "relies_on": ["C05"],
@@ -222,6 +254,7 @@ def c08(tier):
                                 aead_cbmc(ks, "siv"), aead_native(ks, "siv"), unwind=unwind_for(a, m, 32),
                                 timeout=300 if tier == "quick" else 900, facet="roundtrip-alias%d" % alias))
     jobs += dec_jobs(tier, "siv") + dec_jobs(tier, "siv", "c03_call.c", "call") + short_jobs("siv")
+    jobs += [j for j in checktag_jobs(tier) if j.shape.get("PLEN", 0) <= 40]     # the shared verdict function, real code
     meta = {
         "functions": ["tinyjambu_%d_siv_encrypt" % k for k in KSS] + ["tinyjambu_%d_siv_decrypt" % k for k in KSS] +
                      ["tinyjambu_aead_check_tag"],
@@ -240,6 +273,7 @@ def c08(tier):
 @prop("C09")
 def c09(tier):
     jobs = conf_jobs(tier, "siv")
+    jobs += align_variants(jobs, lambda j: (j.defines["ADLEN"], j.defines["MLEN"]) in ALIGN_SHAPES)
     shapes = [(a, m) for a in (0, 3) for m in range(1, 10)] if tier == "quick" else \
              [(a, m) for a in (0, 3, 8) for m in list(range(1, 18)) + [31, 32, 33, 64, 65, 130]]
     for ks in KSS:
@@ -292,6 +326,8 @@ def c10(tier):
         jobs.append(hash_job("hash-n%d-split%d-%d" % (n, c1, c2), {"N": n, "C1": c1, "C2": c2}, "conformance-3-updates", tier, n=n))
     for n in (0, 1, 15, 16, 17, 33):
         jobs.append(hash_job("hash-oneshot-n%d" % n, {"N": n, "C1": 0, "C2": 0, "ONESHOT": None}, "one-shot tinyjambu_hash", tier, n=n))
+    jobs += align_variants(jobs, lambda j: j.name in ("hash-n16", "hash-n17", "hash-n33", "hash-n48", "hash-n70", "hash-n5-split1-2", "hash-n33-split7-9",
+                                                      "hash-n70-split15-17", "hash-oneshot-n17", "hash-oneshot-n33"))
     meta = {
         "functions": ["tinyjambu_hash_init", "tinyjambu_hash_update", "tinyjambu_hash_finalize", "tinyjambu_hash_compress (static)",
                       "tinyjambu_hash (one-shot, n <= 33)", "tinyjambu_hash_free", "tinyjambu_clean"],
@@ -321,6 +357,7 @@ def c11(tier):
                         backend="kissat", unwind=40, timeout=600, facet="finalize-lemma"))
         jobs.append(Job("null-update-posn%d" % posn, "c11_step.c", {"VARIANT": 6, "POSN": posn}, step_src[0], step_src[1],
                         backend="kissat", unwind=60, timeout=600, facet="update(NULL,0) identity, free(NULL) no-op"))
+    jobs += align_variants(jobs, lambda j: j.name.startswith("step-posn") and j.defines["POSN"] in (0, 1, 15) and j.defines["LEN"] in (16, 17, 33, 40))
     jobs.append(Job("init-arbitrary", "c11_step.c", {"VARIANT": 3}, step_src[0], step_src[1], backend="kissat",
                     unwind=40, facet="init-lemma"))
     jobs.append(Job("reinit-arbitrary", "c11_step.c", {"VARIANT": 3, "REINIT": None}, step_src[0], step_src[1],
@@ -389,6 +426,7 @@ def c12(tier):
         jobs.append(cut2("hmac-stream-k%d-m%d-c%d" % (k, m, c1), "c12_hmac.c", {"VARIANT": 1, "KEYLEN": k, "MSGLEN": m, "C1": c1}, HMAC_SRC, "init/update/update/finalize", tier))
     for (k, m, pre) in [(32, 5, 3), (65, 2, 20), (0, 0, 1), (64, 17, 64)] + ([(200, 8, 5), (33, 33, 33)] if tier != "quick" else []):
         jobs.append(cut2("hmac-reinit-k%d-m%d-pre%d" % (k, m, pre), "c12_hmac.c", {"VARIANT": 2, "KEYLEN": k, "MSGLEN": m, "PRE": pre, "C1": m // 2}, HMAC_SRC, "reinit after a partial message", tier))
+    jobs += align_variants(jobs, lambda j: j.name in ("hmac-oneshot-k32-m17", "hmac-oneshot-k65-m20", "hmac-stream-k64-m33-c16", "hmac-oneshot-k200-m9"), offsets=(1, 3))
     meta = {
         "functions": ["tinyjambu_hmac", "tinyjambu_hmac_init", "tinyjambu_hmac_reinit", "tinyjambu_hmac_update", "tinyjambu_hmac_finalize",
                       "tinyjambu_hmac_free", "tinyjambu_hmac_set_key (static)"],
@@ -434,7 +472,7 @@ def c13(tier):
     # the contract query supplies tinyjambu_clean itself
     j = jobs[-1]
     j.cbmc_srcs = [x for x in j.cbmc_srcs if not x.endswith("tinyjambu-clean.c") and not x.endswith("abs_hash.c") and not x.endswith("kdf_spec.c")]
-    j.native_srcs = []
+    j.native_srcs = HMAC_SRC + HASH_REAL + D.perm_real(256)    # referenced by the (weakened, never executed) callee bodies
     meta = {
         "functions": ["tinyjambu_hkdf (wrapper: real goto program, callees replaced by recording stubs)", "tinyjambu_hkdf_extract",
                       "tinyjambu_hkdf_expand (one step from an arbitrary state)", "tinyjambu_hmac_* (real code)"],
@@ -472,10 +510,12 @@ def c14(tier):
     if tier == "quick":
         fshapes = [(c, pw, sa) for c in (0, 1) for (pw, sa) in ((0, 0), (5, 3), (64, 16), (65, 3))] + \
                   [(c, pw, sa) for c in (2, 3) for (pw, sa) in ((5, 3), (65, 0))]
-        oshapes = [(o, 1, 5, 3) for o in (0, 1, 31, 32, 33, 64, 65)] + [(33, 2, 0, 0)]
+        oshapes = [(o, 1, 5, 3) for o in (0, 1, 31, 32, 33, 64, 65)] + [(33, 2, 0, 0)] + \
+                  [(33, 1, pw, 2) for pw in (63, 64, 65)]       # password length around the HMAC block size, whole function
     else:
         fshapes = [(c, pw, sa) for c in (0, 1, 2, 3, 4, 5) for (pw, sa) in ((0, 0), (5, 3), (64, 16), (65, 3), (100, 0))]
-        oshapes = [(o, 1, 5, 3) for o in (0, 1, 31, 32, 33, 63, 64, 65, 96, 100)] + [(33, 2, 0, 0), (65, 3, 65, 16), (40, 0, 5, 3)]
+        oshapes = [(o, 1, 5, 3) for o in (0, 1, 31, 32, 33, 63, 64, 65, 96, 100)] + [(33, 2, 0, 0), (65, 3, 65, 16), (40, 0, 5, 3)] + \
+                  [(33, c, pw, 2) for pw in (1, 32, 63, 64, 65, 66, 100) for c in (1, 2)]
     for (c, pw, sa) in fshapes:
         jobs.append(cut2fold("pbkdf2-F-c%d-pw%d-s%d" % (c, pw, sa), "c14_pbkdf2.c",
                              {"VARIANT": 0, "COUNT": c, "PWLEN": pw, "SALTLEN": sa}, HMAC_SRC, "F function, symbolic 32-bit block number", tier))
@@ -483,9 +523,10 @@ def c14(tier):
         jobs.append(cut2fold("pbkdf2-out%d-c%d-pw%d-s%d" % (o, c, pw, sa), "c14_pbkdf2.c",
                              {"VARIANT": 1, "OUTLEN": o, "COUNT": c, "PWLEN": pw, "SALTLEN": sa}, HMAC_SRC, "whole function == RFC 8018", tier))
     for o in (0, 1, 33, 64, 300) if tier == "quick" else (0, 1, 31, 32, 33, 64, 65, 8160, 8192, 8193, 8224, 16385):
-        j = Job("pbkdf2-outer-loop-out%d" % o, "c14_pbkdf2.c", {"VARIANT": 2, "OUTLEN": o, "PWLEN": 2, "SALTLEN": 2, "static": ""},
-                LIBC + CLEAN, CLEAN, backend="sat", unwind=o + 40, timeout=900, facet="outer loop with F stubbed: > 255 blocks",
-                instrument=[(S("tinyjambu-pbkdf2.c")[0], ["tinyjambu_pbkdf2_f"])])
+        j = Job("pbkdf2-outer-loop-out%d" % o, "c14_pbkdf2.c", {"VARIANT": 2, "OUTLEN": o, "PWLEN": 2, "SALTLEN": 2},
+                LIBC + CLEAN, CLEAN + HMAC_SRC + HASH_REAL + D.perm_real(256), backend="sat", unwind=o + 40, timeout=900,
+                facet="outer loop with F stubbed: > 255 blocks",
+                instrument=[(S("tinyjambu-pbkdf2.c")[0], ["tinyjambu_pbkdf2_f"])], instrument_defs=["-Dstatic="])
         jobs.append(j)
     meta = {
         "functions": ["tinyjambu_pbkdf2", "tinyjambu_pbkdf2_f (static; reached by #including the TU)", "tinyjambu_hmac_* (real code)"],
@@ -527,17 +568,17 @@ def c15(tier):
     for sz in sizes:
         jobs.append(prng("gen-size%d-noreseed" % sz, {"VARIANT": 1, "SIZE": sz, "CTR": 1, "LIMIT": 32}, "generate: no reseed inside", tier))
         for k in ((32, 1) if tier == "quick" else (32, 31, 1, 0)):
-            jobs.append(prng("gen-size%d-reseed-first-k%d" % (sz, k), {"VARIANT": 1, "SIZE": sz, "CTR": 33, "LIMIT": 32, "K": k}, "generate: reseed before the first block", tier))
+            jobs.append(prng("gen-size%d-reseed-first-k%d" % (sz, k), {"VARIANT": 1, "SIZE": sz, "CTR": 33, "LIMIT": 32, "KDELIV": k}, "generate: reseed before the first block", tier))
             if sz > 32:
-                jobs.append(prng("gen-size%d-reseed-inside-k%d" % (sz, k), {"VARIANT": 1, "SIZE": sz, "CTR": 32, "LIMIT": 32, "K": k}, "generate: reseed falls inside the call", tier))
+                jobs.append(prng("gen-size%d-reseed-inside-k%d" % (sz, k), {"VARIANT": 1, "SIZE": sz, "CTR": 32, "LIMIT": 32, "KDELIV": k}, "generate: reseed falls inside the call", tier))
     jobs.append(prng("gen-size0", {"VARIANT": 1, "SIZE": 0, "CTR": 40, "LIMIT": 32}, "generate(0) changes nothing", tier))
-    jobs.append(prng("gen-size40-limit1", {"VARIANT": 1, "SIZE": 40, "CTR": 1, "LIMIT": 1, "K": 32}, "generate: limit 1, reseed every block", tier))
+    jobs.append(prng("gen-size40-limit1", {"VARIANT": 1, "SIZE": 40, "CTR": 1, "LIMIT": 1, "KDELIV": 32}, "generate: limit 1, reseed every block", tier))
     for ln in (range(0, 9) if tier == "quick" else list(range(0, 9)) + [31, 32, 33, 64]):
         jobs.append(prng("feed-len%d" % ln, {"VARIANT": 2, "LEN": ln}, "feed", tier))
     for k in (0, 1, 31, 32):
-        jobs.append(prng("reseed-k%d" % k, {"VARIANT": 3, "K": k}, "reseed", tier))
+        jobs.append(prng("reseed-k%d" % k, {"VARIANT": 3, "KDELIV": k}, "reseed", tier))
         for cl in ((0, 3, 8) if tier == "quick" else range(0, 9)):
-            jobs.append(prng("init-custom%d-k%d" % (cl, k), {"VARIANT": 4, "CUSTOMLEN": cl, "K": k}, "init_user on arbitrary prior contents", tier))
+            jobs.append(prng("init-custom%d-k%d" % (cl, k), {"VARIANT": 4, "CUSTOMLEN": cl, "KDELIV": k}, "init_user on arbitrary prior contents", tier))
     jobs.append(prng("setlimit", {"VARIANT": 5}, "set_reseed_limit(symbolic)", tier))
     jobs.append(prng("dep-feed", {"VARIANT": 7, "OP": 0, "LEN": 4}, "new state depends on the old state", tier))
     jobs.append(prng("dep-reseed", {"VARIANT": 7, "OP": 1}, "new state depends on the old state", tier))
@@ -565,12 +606,12 @@ def c16(tier):
     for ln in (0, 5):
         jobs.append(prng("inv-feed-len%d" % ln, {"VARIANT": 2, "LEN": ln}, "invariant step: feed (symbolic counter)", tier))
     for k in (0, 32):
-        jobs.append(prng("inv-reseed-k%d" % k, {"VARIANT": 3, "K": k}, "invariant step: reseed (symbolic counter)", tier))
-        jobs.append(prng("inv-init-k%d" % k, {"VARIANT": 4, "CUSTOMLEN": 2, "K": k}, "invariant step: init sets limit 32 blocks, counter 1", tier))
+        jobs.append(prng("inv-reseed-k%d" % k, {"VARIANT": 3, "KDELIV": k}, "invariant step: reseed (symbolic counter)", tier))
+        jobs.append(prng("inv-init-k%d" % k, {"VARIANT": 4, "CUSTOMLEN": 2, "KDELIV": k}, "invariant step: init sets limit 32 blocks, counter 1", tier))
     jobs.append(prng("inv-setlimit", {"VARIANT": 5}, "invariant step: set_reseed_limit(symbolic size_t)", tier))
     # concrete walks across a lowered limit
-    jobs.append(prng("gen-size40-limit1", {"VARIANT": 1, "SIZE": 40, "CTR": 1, "LIMIT": 1, "K": 32}, "limit 1: one request per block", tier))
-    jobs.append(prng("gen-size33-lowered-limit", {"VARIANT": 1, "SIZE": 33, "CTR": 20, "LIMIT": 2, "K": 32}, "lowered limit acts at the next block", tier))
+    jobs.append(prng("gen-size40-limit1", {"VARIANT": 1, "SIZE": 40, "CTR": 1, "LIMIT": 1, "KDELIV": 32}, "limit 1: one request per block", tier))
+    jobs.append(prng("gen-size33-lowered-limit", {"VARIANT": 1, "SIZE": 33, "CTR": 20, "LIMIT": 2, "KDELIV": 32}, "lowered limit acts at the next block", tier))
     meta = dict(PRNG_META)
     meta.update({
         "functions": ["tinyjambu_prng_generate", "tinyjambu_prng_feed", "tinyjambu_prng_reseed", "tinyjambu_prng_init_user", "tinyjambu_prng_set_reseed_limit"],
@@ -589,16 +630,16 @@ def c16(tier):
 def c17(tier):
     jobs = []
     for k in (0, 1, 31, 32):
-        jobs.append(prng("status-reseed-k%d" % k, {"VARIANT": 3, "K": k}, "reseed status and post-state", tier))
+        jobs.append(prng("status-reseed-k%d" % k, {"VARIANT": 3, "KDELIV": k}, "reseed status and post-state", tier))
         for cl in (0, 5):
-            jobs.append(prng("status-init-custom%d-k%d" % (cl, k), {"VARIANT": 4, "CUSTOMLEN": cl, "K": k}, "init status and post-state", tier))
+            jobs.append(prng("status-init-custom%d-k%d" % (cl, k), {"VARIANT": 4, "CUSTOMLEN": cl, "KDELIV": k}, "init status and post-state", tier))
     for k in (1, 31):
-        jobs.append(prng("short-delivery-mixed-reseed-k%d" % k, {"VARIANT": 8, "OP": 1, "K": k}, "short delivery still mixed in", tier))
-        jobs.append(prng("short-delivery-mixed-init-k%d" % k, {"VARIANT": 8, "OP": 0, "K": k}, "short delivery still mixed in", tier))
+        jobs.append(prng("short-delivery-mixed-reseed-k%d" % k, {"VARIANT": 8, "OP": 1, "KDELIV": k}, "short delivery still mixed in", tier))
+        jobs.append(prng("short-delivery-mixed-init-k%d" % k, {"VARIANT": 8, "OP": 0, "KDELIV": k}, "short delivery still mixed in", tier))
     for cl in (0, 3):
         jobs.append(prng("null-callback-custom%d" % cl, {"VARIANT": 6, "CUSTOMLEN": cl}, "NULL callback == plain init", tier))
     for (sz, k) in ((33, 0), (64, 1)):
-        jobs.append(prng("usable-after-failure-size%d-k%d" % (sz, k), {"VARIANT": 1, "SIZE": sz, "CTR": 33, "LIMIT": 32, "K": k},
+        jobs.append(prng("usable-after-failure-size%d-k%d" % (sz, k), {"VARIANT": 1, "SIZE": sz, "CTR": 33, "LIMIT": 32, "KDELIV": k},
                          "generate after a failed delivery follows the model (memory safe, advancing state)", tier))
     meta = dict(PRNG_META)
     meta.update({
@@ -658,13 +699,13 @@ def c20(tier):
         defs = {"STUB_MEMSET_S": None, "rsize_t": "size_t"} if cfg == "memset_s" else {}
         for which in ("hash", "hmac", "hkdf", "prng"):
             d = dict(defs); d.update({"VARIANT": 1, "WHICH": which})
-            jobs.append(Job("free-%s-%s" % (which, cfg), "c20_erase.c", d, free_srcs, free_nat if cfg == "default" else [],
+            jobs.append(Job("free-%s-%s" % (which, cfg), "c20_erase.c", d, free_srcs, free_nat,
                             backend="sat", unwind=120, config=cfg, extra=extra, facet="X_free zeroes the whole state (%s)" % cfg))
         ns = range(0, 71) if tier != "quick" else list(range(0, 20)) + [31, 32, 33, 55, 56, 64, 70]
         for n in ns:
             for off in (range(8) if (tier != "quick" or n in (0, 1, 7, 8, 9, 33)) else (0, 3)):
                 d = dict(defs); d.update({"VARIANT": 2, "N": n, "OFF": off})
-                jobs.append(Job("clean-n%d-off%d-%s" % (n, off, cfg), "c20_erase.c", d, LIBC + CLEAN, CLEAN if cfg == "default" else [],
+                jobs.append(Job("clean-n%d-off%d-%s" % (n, off, cfg), "c20_erase.c", d, LIBC + CLEAN, CLEAN,
                                 backend="sat", unwind=n + 40, config=cfg, extra=extra, facet="tinyjambu_clean exact range (%s)" % cfg))
     jobs.append(Job("free-null", "c20_erase.c", {"VARIANT": 3}, free_srcs, free_nat, backend="sat", unwind=120, facet="free(NULL) no-op"))
     meta = {
@@ -754,21 +795,37 @@ def c19(tier):
         jobs.append(CmdJob("structure-%s" % cfg, [sys.executable, os.path.join(D.VERIF, "lib/c19_struct.py"), cfg], timeout=600,
                            facet="structural: no writable statics, no heap, imports (from goto-cc output)", shape={"config": cfg}))
     # family 0: AEAD / SIV / hash / clean on the real code (permutation = UF)
-    src0 = LIBC + PERM_UF + CLEAN + HASH_REAL + S("backend/tinyjambu-util.c")
+    src0 = LIBC + PERM_UF + CLEAN + HASH_REAL + SPEC + KDFSPEC + S("backend/tinyjambu-util.c")
     for ks in KSS:
         src0 += S("tinyjambu-%d-aead.c" % ks, "tinyjambu-%d-siv.c" % ks, "backend/tinyjambu-aead-common-%d.c" % ks)
     nat0 = [x for x in src0 if not x.endswith("libc.c") and not x.endswith("perm_uf.c")] + D.ALL_PERMS
     pairs0 = [(a, b) for a in range(3) for b in range(5)] if tier != "quick" else [(0, 0), (0, 2), (0, 3), (1, 1), (1, 4), (2, 2), (2, 0)]
     for (a, b) in pairs0:
-        jobs.append(Job("history-real-A%d-B%d" % (a, b), "c19_hist.c", {"FAMILY": 0, "A": a, "B": b}, src0, nat0, backend="kissat", unwind=120,
-                        timeout=1200, extra=["--nondet-static"], facet="history independence, AEAD/SIV/hash/clean (--nondet-static)"))
+        jobs.append(Job("history-real-A%d-B%d" % (a, b), "c19_hist.c", {"FAMILY": 0, "HA": a, "HB": b}, src0, nat0, backend="kissat", unwind=170,
+                        timeout=1200, facet="history independence with reused buffers: AEAD/SIV/hash/clean"))
     # family 1: HMAC / HKDF / PBKDF2 / PRNG real code over the abstract hash
     src1 = LIBC + ABSFOLD + KDFSPEC + CLEAN + S("tinyjambu-hmac.c", "tinyjambu-hkdf.c", "tinyjambu-pbkdf2.c", "tinyjambu-prng.c", "random/tinyjambu-trng-dev-random.c")
     nat1 = CUT2_NATIVE + S("tinyjambu-hmac.c", "tinyjambu-hkdf.c", "tinyjambu-pbkdf2.c", "tinyjambu-prng.c", "random/tinyjambu-trng-dev-random.c")
     pairs1 = [(a, b) for a in range(2) for b in range(3)] if tier != "quick" else [(0, 0), (1, 2), (1, 0)]
     for (a, b) in pairs1:
-        jobs.append(Job("history-kdf-A%d-B%d" % (a, b), "c19_hist.c", {"FAMILY": 1, "A": a, "B": b, "VERIF_CUT2": None}, src1, nat1, backend="z3",
-                        unwind=340, timeout=1200, extra=["--nondet-static"], facet="history independence, HMAC/HKDF/PBKDF2 over Cut 2 (--nondet-static)"))
+        jobs.append(Job("history-kdf-A%d-B%d" % (a, b), "c19_hist.c", {"FAMILY": 1, "HA": a, "HB": b, "VERIF_CUT2": None}, src1, nat1, backend="z3",
+                        unwind=340, timeout=1200, facet="history independence with reused buffers: HMAC/PBKDF2 (long keys) over Cut 2"))
+    # conformance with every static-lifetime object NONDETERMINISTIC: any static that is read before being written
+    # (a cache, a lazily initialised table, a scratch buffer) makes the output differ from the model
+    for (k, m) in ((5, 9), (70, 3)):
+        jobs.append(Job("nondet-static-hmac-k%d-m%d" % (k, m), "c12_hmac.c", {"VARIANT": 0, "KEYLEN": k, "MSGLEN": m, "VERIF_CUT2": None},
+                        LIBC + ABSFOLD + KDFSPEC + CLEAN + HMAC_SRC, CUT2_NATIVE + HMAC_SRC, backend="z3", unwind=340, timeout=900,
+                        extra=["--nondet-static"], facet="conformance under --nondet-static"))
+    jobs.append(Job("nondet-static-pbkdf2", "c14_pbkdf2.c", {"VARIANT": 1, "OUTLEN": 33, "COUNT": 2, "PWLEN": 70, "SALTLEN": 3, "VERIF_CUT2": None},
+                    LIBC + ABSFOLD + KDFSPEC + CLEAN + HMAC_SRC, CUT2_NATIVE + HMAC_SRC, backend="z3", unwind=340, timeout=900,
+                    extra=["--nondet-static"], facet="conformance under --nondet-static"))
+    for ks in KSS:
+        jobs.append(Job("nondet-static-aead-%d" % ks, "c02_conf.c", {"KS": ks, "MODE": "aead", "ADLEN": 5, "MLEN": 9}, aead_cbmc(ks) + SPEC,
+                        aead_native(ks) + SPEC, backend="z3", unwind=60, extra=["--nondet-static"], facet="conformance under --nondet-static"))
+        jobs.append(Job("nondet-static-siv-%d" % ks, "c02_conf.c", {"KS": ks, "MODE": "siv", "MODE_SIV": None, "ADLEN": 3, "MLEN": 6}, aead_cbmc(ks, "siv") + SPEC,
+                        aead_native(ks, "siv") + SPEC, backend="z3", unwind=60, extra=["--nondet-static"], facet="conformance under --nondet-static"))
+    jobs.append(Job("nondet-static-hash", "c10_hash.c", {"N": 37, "C1": 5, "C2": 20}, HASH_CBMC + HASH_REAL, HASH_NATIVE + HASH_REAL, backend="kissat",
+                    unwind=60, timeout=900, extra=["--nondet-static"], facet="conformance under --nondet-static"))
     meta = {
         "functions": ["every function of every library translation unit (structural facts)", "AEAD/SIV encrypt+decrypt, hash, HMAC, HKDF, clean (history queries)"],
         "units": ["all 25 .c files under src/ (goto-cc symbol tables and call sites)", "src/*.c linked for the history queries"],
@@ -776,7 +833,7 @@ def c19(tier):
                   "lifetime and the call sites import only memcpy, memset, explicit_bzero|memset_s, getrandom|getentropy|syscall|open|read|close, "
                   "__errno_location; three build configurations; fact 2 (solver): every API call writes only objects reachable from its arguments - "
                   "shared with C06's exact-size-object queries; fact 3 (solver): out1 = A(x), unrelated B(y), out2 = A(x) => out1 == out2 with all "
-                  "static-lifetime objects nondeterministic (--nondet-static), 8 (thorough 21) (A,B) pairs. 1 and 2 give: two calls on disjoint objects "
+                  "static-lifetime objects nondeterministic (--nondet-static), 10 (thorough 21) (A,B) pairs; plus output == specification model for HMAC (short and long key), PBKDF2 (long password), AEAD, SIV and the hash, again under --nondet-static, so a static that is read before being written shows as a difference from the model. 1 and 2 give: two calls on disjoint objects "
                   "access disjoint locations, hence commute, hence every interleaving equals a serial order (meta-step, stated).",
         "outside": "actual multi-threaded execution (CBMC's thread support gives no verdict on these functions within budget: DESIGN 5.5); the "
                    "commutation argument is a meta-step; data races inside libc",
@@ -844,15 +901,72 @@ def c06(tier):
 # ---- C07 -------------------------------------------------------------------------------
 def ct_job(name, defines, branch, plain, native, facet, tier, backend="sat", unwind=300, timeout=None):
     defines = dict(defines)
-    defines.setdefault("TRMAX", 3000)
-    unwind = defines["TRMAX"] + 16
+    defines.setdefault("TRMAX", 4000)
+    unwind = max(unwind, 300)          # library loops only: the trace is compared decision by decision, not in a loop
     return Job(name, "c07_ct.c", defines, plain, native, backend=backend, unwind=unwind,
-               timeout=timeout or (900 if tier == "quick" else 3000), facet=facet, branch_srcs=branch)
+               timeout=timeout or (600 if tier == "quick" else 1800), facet="C source second opinion: " + facet, branch_srcs=branch)
+
+
+E3 = os.path.join(D.VERIF, "e3")
+
+
+def e3_job(name, api, shape, facet, opt="O2", config="default", wipes=False, vectorize=False, timeout=900):
+    cmd = ["python3-vt", os.path.join(E3, "ctcheck.py"), "--api", api, "--shape", ",".join("%s=%s" % kv for kv in shape.items()),
+           "--opt", opt, "--config", config, "--repo", D.REPO]
+    if wipes:
+        cmd.append("--expect-wipes")
+    if vectorize:
+        cmd.append("--vectorize")
+    sh = dict(shape, api=api, opt=opt, config=config, vectorize=vectorize)
+    return CmdJob(name, cmd, timeout=timeout, facet=facet, shape=sh)
+
+
+def e3_ct_jobs(tier):
+    """Constant-time queries on clang's IR (E3): control flow AND addresses, lengths, shift amounts, divisors."""
+    jobs = []
+    opts = [("O2", False)] if tier == "quick" else [("O0", False), ("O2", False), ("O3", False), ("O2", True)]
+    lens = [(0, 0), (1, 2), (3, 5), (4, 8), (5, 9), (7, 3), (17, 33)] if tier == "quick" else \
+           [(a, m) for a in (0, 1, 2, 3, 4, 5, 8, 17, 33) for m in (0, 1, 2, 3, 4, 5, 9, 16, 17, 33, 65)]
+    for (opt, vec) in opts:
+        tag = opt + ("v" if vec else "")
+        for ks in KSS:
+            for api in ("aead-enc", "aead-dec", "siv-enc", "siv-dec"):
+                for (a, m) in lens:
+                    jobs.append(e3_job("ir-%s-%s-%d-ad%d-m%d" % (tag, api, ks, a, m), api, {"ks": ks, "ad": a, "m": m}, "clang IR %s: %s" % (tag, api), opt, vectorize=vec))
+            for r in (5, 8, 10, 20):
+                jobs.append(e3_job("ir-%s-perm-%d-r%d" % (tag, ks, r), "perm", {"ks": ks, "rounds": r}, "clang IR %s: permutation" % tag, opt, vectorize=vec))
+        for p in (0, 1, 8, 31, 64):
+            jobs.append(e3_job("ir-%s-checktag-p%d" % (tag, p), "checktag", {"p": p}, "clang IR %s: tag check" % tag, opt, vectorize=vec))
+        for (n, c1) in ((0, 0), (5, 2), (16, 16), (17, 1), (33, 20), (70, 15)):
+            jobs.append(e3_job("ir-%s-hash-n%d-c%d" % (tag, n, c1), "hash", {"n": n, "c1": c1}, "clang IR %s: hash" % tag, opt, vectorize=vec))
+        for n in (0, 17, 33):
+            jobs.append(e3_job("ir-%s-hash-oneshot-n%d" % (tag, n), "hash-oneshot", {"n": n}, "clang IR %s: hash" % tag, opt, wipes=True, vectorize=vec))
+        for (k, m) in ((0, 0), (5, 9), (64, 3), (65, 20), (100, 40)):
+            jobs.append(e3_job("ir-%s-hmac-k%d-m%d" % (tag, k, m), "hmac", {"k": k, "m": m}, "clang IR %s: HMAC" % tag, opt, wipes=True, vectorize=vec))
+            jobs.append(e3_job("ir-%s-hmac-stream-k%d-m%d" % (tag, k, m), "hmac-stream", {"k": k, "m": m, "c1": m // 2}, "clang IR %s: HMAC" % tag, opt, vectorize=vec))
+        for (k, sa, i, o) in ((16, 0, 3, 33), (5, 16, 0, 70), (65, 65, 5, 100)):
+            jobs.append(e3_job("ir-%s-hkdf-k%d-s%d-out%d" % (tag, k, sa, o), "hkdf", {"k": k, "s": sa, "i": i, "out": o}, "clang IR %s: HKDF" % tag, opt, wipes=True, vectorize=vec))
+            jobs.append(e3_job("ir-%s-hkdf-stream-k%d-s%d" % (tag, k, sa), "hkdf-stream", {"k": k, "s": sa, "i": i, "e1": 5, "e2": o}, "clang IR %s: HKDF" % tag, opt, vectorize=vec))
+        for (pw, sa, o, c) in ((5, 3, 33, 2), (65, 0, 32, 3), (64, 16, 40, 1)):
+            jobs.append(e3_job("ir-%s-pbkdf2-pw%d-out%d-c%d" % (tag, pw, o, c), "pbkdf2", {"pw": pw, "s": sa, "out": o, "count": c}, "clang IR %s: PBKDF2" % tag, opt, wipes=True, vectorize=vec))
+        for (sz, ctr, lim, k, fl) in ((33, 1, 32, 32, 3), (40, 32, 32, 1, 0), (1, 40, 32, 0, 8), (70, 2, 2, 31, 5)):
+            jobs.append(e3_job("ir-%s-prng-size%d-ctr%d-lim%d-k%d-feed%d" % (tag, sz, ctr, lim, k, fl), "prng",
+                               {"size": sz, "ctr": ctr, "limit": lim, "k": k, "feed": fl}, "clang IR %s: PRNG" % tag, opt, wipes=True, vectorize=vec))
+        for k in (0, 16, 32):
+            jobs.append(e3_job("ir-%s-prng-init-k%d" % (tag, k), "prng-init", {"custom": 3, "k": k}, "clang IR %s: PRNG" % tag, opt, vectorize=vec))
+        for cfg in ("default", "volatile"):
+            for (n, off) in ((0, 0), (1, 1), (33, 3)):
+                jobs.append(e3_job("ir-%s-clean-n%d-off%d-%s" % (tag, n, off, cfg), "clean", {"n": n, "off": off}, "clang IR %s: clean (%s)" % (tag, cfg), opt, config=cfg, vectorize=vec))
+    return jobs
 
 
 @prop("C07")
 def c07(tier):
     jobs = []
+    if os.path.exists(os.path.join(E3, "ctcheck.py")):
+        jobs += [CmdJob("ir-selftest", ["python3-vt", os.path.join(E3, "ctcheck.py"), "--selftest", "--repo", D.REPO], timeout=1800,
+                        facet="IR semantics validation: concrete execution of the IR on the repository's KAT vectors")]
+        jobs += e3_ct_jobs(tier)
     lens = [(0, 0), (1, 2), (3, 5), (4, 8), (5, 9), (7, 3)] if tier == "quick" else \
            [(a, m) for a in (0, 1, 2, 3, 4, 5, 8) for m in (0, 1, 2, 3, 4, 5, 9, 16, 17)]
     for ks in KSS:
@@ -901,18 +1015,20 @@ def c07(tier):
     meta = {
         "functions": ["every public AEAD/SIV/hash/HMAC/HKDF/PBKDF2/PRNG entry point, tinyjambu_aead_check_tag, tinyjambu_clean, the portable permutations"],
         "units": ["all library TUs of the host build, compiled by goto-cc and instrumented with goto-instrument --branch"],
-        "bounds": "CONTROL FLOW on the C sources: two runs with equal public shapes and independent symbolic secrets (keys, nonces, AD, messages, "
-                  "packets incl. tags, passwords, salts, HMAC/HKDF key material, PRNG V/C/entropy/fed data, hash input, permutation state) must "
-                  "produce identical taken/not-taken traces at every conditional jump of the library code (and of the memcpy/memset byte-loop "
-                  "stubs). Shapes: AEAD/SIV 6 (ad, m) pairs x 3 key sizes x enc/dec (SIV thinner; thorough 63 pairs), check_tag plaintext 0..31, hash "
-                  "6 (n, split) pairs, HMAC key classes {0, <64, 64, >64}, HKDF, PBKDF2 counts 2..3, PRNG with reseed before / inside / none and "
-                  "short deliveries, clean in two configurations, the real permutation at r in {1,5,8}.  The accept/reject verdict is NOT constrained "
-                  "to be equal, so the tag check and plaintext clearing are shown to follow one path whichever byte differs. The assembly backends' "
-                  "control flow is decided in C05 (every branch condition concrete given the round count).",
-        "outside": "MEMORY ADDRESSES: the goto-level instrumentation observes branches only; address independence is not decided by this check "
-                   "(the E3 LLVM-IR executor of DESIGN 3 is not built; see DESIGN 8). Machine code after instruction selection (a select may "
-                   "become a branch), gcc/clang optimisation levels, microarchitectural channels.",
-        "stubs": AEAD_STUBS + [FOLD_STUB], "assumptions": AEAD_ASSUME + ["goto-instrument --branch instruments every conditional goto of the library binary"],
+        "bounds": "PRIMARY (E3, /verif/e3): clang -O2 IR (thorough: -O0, -O2, -O3 and -O2 with vectorisation) of the real translation units is "
+                  "executed with every secret byte a z3 variable and every public value concrete; any branch condition, switch value, GEP index / "
+                  "address, memcpy/memset length, variable shift amount or divisor that is a secret-derived term is a candidate: the solver must prove "
+                  "it constant over all secrets, otherwise the check FAILS with two witness assignments that are replayed concretely on the same IR "
+                  "(diverging block / address trace).  On the unmodified tree no secret term reaches any such position (0 candidates), so the verdict "
+                  "holds for ALL secret values of each shape.  Shapes: AEAD/SIV enc+dec x 3 key sizes x 7 (ad, m) pairs (thorough 99), permutation "
+                  "r in {5,8,10,20}, check_tag, hash (incremental + one-shot), HMAC (5 key classes, one-shot + streamed), HKDF, PBKDF2, PRNG "
+                  "generate/feed/reseed/init with short deliveries, clean in both configurations.  `select` on a secret is allowed but counted "
+                  "(0 on this tree).  Every load/store's IR alignment is checked against caller buffers of alignment 1 (C06 facet) and the wiping "
+                  "calls that must survive optimisation are checked (--expect-wipes, C20 facet).  SECOND OPINION (E1): self-composition on the C "
+                  "sources over goto-instrument --branch traces (control flow only).  The assembly backends' control flow is decided in C05.",
+        "outside": "machine code after instruction selection (a select may become a branch), gcc's optimiser (only clang IR is executed), "
+                   "microarchitectural channels (caches, variable-latency instructions), shapes outside the list.",
+        "stubs": AEAD_STUBS + [FOLD_STUB], "assumptions": AEAD_ASSUME + ["goto-instrument --branch instruments every conditional goto of the library binary", "E3: clang-14 IR is a faithful image of the C semantics; the IR interpreter in /verif/e3 (validated by executing the repository KAT vectors concretely through it at O0..O3) is trusted"],
         "relies_on": ["C05 (assembly control flow)"],
     }
     return jobs, meta
